@@ -263,6 +263,17 @@ def verify(ctx, contract: Contract, timeout_s=None):
         if len(paths) < contract.min_paths:
             raise Unsupported(f"only {len(paths)} paths explored, contract expects >= {contract.min_paths}")
         _record(ctx, res, fn, "vacuity.paths-explored", "auxiliary", "discharged", "path-enumeration", 0.0, f"{len(paths)} feasible paths, {n_ret} normal exits")
+        # reachability (cover) check: an `assert False` placed at an exit must be REFUTED, i.e.
+        # at least one exit path has a satisfiable path condition under the requires
+        reach = False
+        for s, out in paths:
+            st_, _, _, _ = discharge(s.pc, False, 5.0)
+            if st_ == "refuted":
+                reach = True
+                break
+        _record(ctx, res, fn, "vacuity.exit-reachable", "auxiliary", "discharged" if reach else "refuted", "z3", 0.0, "assert False at an exit is refuted (the contract is not vacuous)")
+        if not reach:
+            raise Unsupported("no exit path is reachable under the requires (vacuous verification)")
     except Unsupported as e:
         res.unsupported = str(e)
         ctx.undecide(f"{fn.qualname}", f"UNSUPPORTED: {e}")
